@@ -39,8 +39,14 @@ def record(job):
                  "start": 1, "finfo": [], "nq": nq, "nl": nl, "fin": 1 if t.content.endswith("\n") else 0}
             if t.type in ("code_block", "fence", "html_block"):
                 c = t.content
-                body = c[:-1] if c.endswith("\n") else c
-                e["cl"] = [C.cps(x) for x in body.split("\n")] if c != "" else []
+                parts = c.split("\n") if c != "" else []
+                if c.endswith("\n"):
+                    # the piece after the final line feed is not a line - unless the block runs to the very end of an
+                    # input without final line feed and its last source line is empty after the removed prefix
+                    last = lines[t.map[1] - 1] if 0 < t.map[1] <= len(lines) else "x"
+                    if not (not norm.endswith("\n") and t.map[1] == len(lines) and all(ch in " \t>" for ch in last)):
+                        parts = parts[:-1]
+                e["cl"] = [C.cps(x) for x in parts]
             if t.type == "ordered_list_open":
                 st = t.attrs.get("start", 1)
                 e["start"] = st if isinstance(st, int) and 0 <= st < 2 ** 31 else -1
@@ -124,6 +130,7 @@ def build_jobs(tier, rep):
     if q and len(jobs) > 380000:
         jobs = gen.sample(jobs, 380000, C.SEED + 1)
     jobs += must
+    jobs += [(cfgs[k % len(cfgs)], d + ("\n" if k % 2 else "")) for k, d in enumerate(gen.sample(gen.l3_docs(), 50000 if q else 637602, C.SEED + 3, keep_short=800))]
     tw = gen.twins(gen.sample(pool, 20000 if q else 200000, C.SEED + 2, keep_short=1500), C.SEED, per_doc=2)
     jobs += [(cfgs[k % len(cfgs)], d) for k, d in enumerate(tw)]
     rep.cov["bounds"] = {"L1": len(l1), "with_verbatim_or_markup_shapes": len(pool), "executed": len(jobs)}
